@@ -568,7 +568,9 @@ impl World {
                         // C16: an operation that satisfies every static rule and announced limit is never rejected
                         let mut candidate = op.pkt.clone();
                         match &mut candidate { Pkt::Publish(p) => { if p.qos > 0 { p.packet_id = 1; } } Pkt::Subscribe(x) => x.packet_id = 1, Pkt::Unsubscribe(x) => x.packet_id = 1, _ => {} }
-                        if during == "service" && self.limit_violation(&candidate, ci).is_none() {
+                        // with an active alias resolver the client may add a 3-byte alias property of its own: an operation within 3 bytes of the size limit is not judged
+                        let near_limit = { let size = crate::refcodec::encode(&candidate, self.cfg.mqtt311).map(|b| b.len()).unwrap_or(0); let max = self.cfg.connack_for(ci).maximum_packet_size.unwrap_or(268_435_455) as usize; self.cfg.resolver != ResolverKind::Unset && self.cfg.resolver != ResolverKind::Null && size + 3 > max };
+                        if during == "service" && !near_limit && self.limit_violation(&candidate, ci).is_none() {
                             self.violate("C16", format!("conforming-operation-rejected {:?}", op.kind), format!("tag {} ({:?}, spec {}) failed validation although it breaks no static rule and no limit of connection {}", tag, op.kind, op.spec, ci));
                         }
                     }
